@@ -1087,6 +1087,10 @@ def plan(tier, seed):
                 srcs = small_sources(gtype, 3)
                 if gtype == 'bipartite':
                     srcs = [('bip', L, Rr) for L in range(3) for Rr in range(3)]
+                # two-digit vertex numbers (10, 11, 12): a fault next to a token
+                # that ends in 0, a number that loses a digit...
+                srcs = srcs + [{'simple': ('bsimple', 12, 2), 'dag': ('bdag', 12, 2),
+                                'digraph': ('bdigraph', 12, 1), 'bipartite': ('bbip', 11, 12, 1)}[gtype]]
             else:
                 # dot faults of the 512 digraphs on 3 vertices: thorough tier only,
                 # and without the token faults
